@@ -5,8 +5,21 @@ CFG = {
     "rule": "pairs (pattern, text) fed to humphrey::krauss::wildcard_match and to the Lean model; "
             "exhaustive block: all patterns <=6 over {*,a,b} x all texts <=8 over {a,b}, the same one size "
             "smaller over {*,e-acute,emoji}, patterns/texts over {*,a} with * as text character; random pairs "
-            "built from repeated units (self-overlapping literals). Non-trivial = pattern has >=1 '*' and >=1 "
-            "literal; distinct = distinct case line (hash set).",
+            "built from repeated units (self-overlapping literals). LONG pairs (`globr`/`router` cases, run-length "
+            "encoded in the case line as `R<count>*<hex>` segments that harness and Lean driver expand identically), "
+            "every one through wildcard_match AND String::route_matches: (1) a wildcard absorbs a run of N characters "
+            "(N over 100, 128, 255-257, 1000, 1024, 4096, 8192, 10^4, 65535-65537, 10^5, 262144, 10^6, 2^20-1..2^20+1, "
+            "2*10^6, 2^21+1; thorough also 2^22+1, 10^7, 2^24+1) of units a / e-acute / emoji / ab / /x / * with literal "
+            "context before, after, around and in the middle (also adjacent wildcards and two wildcards sharing the run), "
+            "each with near misses (other last character, suffix cut, other first character); (2) a self-overlapping "
+            "literal u^k v after a wildcard against u^n v, u^n, u^n w with k over 1..100000 and k*n over 10^4, 65537, 10^5, "
+            "10^6, 2^20+1, 3*10^6, 10^7, 2^24+1 (thorough: up to 3*10^8 steps), ASCII, two-byte, four-byte and periodic "
+            "units; (3) many wildcards: 17, 64, 100, 128, 255-257, 1000, 1024, 4096, 65536 (thorough: 10^5, 10^6) stars, "
+            "separated by literals or adjacent, each absorbing something / nothing, one item too few / too many; (4) long "
+            "literal patterns (the same N sweep) without a wildcard or with one at an end / in the middle, equal texts and "
+            "texts one unit shorter / longer / differing in one character; (5) random run-length compositions (pattern "
+            "derived from the text segment by segment; 3000 quick / 60000 thorough); in all about 8000 long pairs quick, 67000 thorough. Non-trivial = pattern has >=1 '*' "
+            "and >=1 literal; distinct = distinct case line (hash set).",
     "exhaustive": True,
     "violation_text": "wildcard_match(pattern, text) differs from the glob relation (proved equal to the model)",
     "trusted_base": ["Spec/Glob.lean: the 4-rule relation Glob and `subst` (proved equivalent to each other)",
